@@ -254,6 +254,17 @@ def _itv(g, rd, f, idx, env, depth=0):
                     out = y if out is None else Itv(min(out.lo, y.lo), max(out.hi, y.hi))
             return out
         return None
+    if k == 'cond':
+        c = _itv_truth(g, rd, f, n['cnd'], env, depth + 1)
+        x = _itv(g, rd, f, n['a'], env, depth + 1)
+        y = _itv(g, rd, f, n['b'], env, depth + 1)
+        if c is True:
+            return x
+        if c is False:
+            return y
+        if x is None or y is None:
+            return None
+        return Itv(min(x.lo, y.lo), max(x.hi, y.hi))
     if k == 'binop':
         a = _itv(g, rd, f, n['lhs'], env, depth + 1)
         b = _itv(g, rd, f, n['rhs'], env, depth + 1)
@@ -283,6 +294,110 @@ def _itv(g, rd, f, idx, env, depth=0):
             return Itv(0.0, 1.0)   # fractional part, half-open [0,1); the bound is kept closed (sound)
         return None
     return None
+
+
+def _itv_truth(g, rd, f, idx, env, depth=0):
+    """True / False when the comparison is decided by the operand intervals, else None"""
+    n = f.nodes[idx]
+    while n['k'] == 'cast':
+        n = f.nodes[n['e']]
+    if n['k'] == 'unop' and n['op'] == '!':
+        t = _itv_truth(g, rd, f, n['e'], env, depth + 1)
+        return None if t is None else (not t)
+    if n['k'] == 'binop' and n['op'] in ('&&', '||'):
+        a, b = _itv_truth(g, rd, f, n['lhs'], env, depth + 1), _itv_truth(g, rd, f, n['rhs'], env, depth + 1)
+        if n['op'] == '&&':
+            return False if (a is False or b is False) else (True if (a and b) else None)
+        return True if (a is True or b is True) else (False if (a is False and b is False) else None)
+    if n['k'] == 'binop' and n['op'] in ('<', '<=', '>', '>=', '==', '!='):
+        a, b = _itv(g, rd, f, n['lhs'], env, depth + 1), _itv(g, rd, f, n['rhs'], env, depth + 1)
+        if a is None or b is None:
+            return None
+        op = n['op']
+        if op in ('>', '>='):
+            a, b, op = b, a, {'>': '<', '>=': '<='}[op]
+        if op == '<':
+            return True if a.hi < b.lo else (False if a.lo >= b.hi else None)
+        if op == '<=':
+            return True if a.hi <= b.lo else (False if a.lo > b.hi else None)
+        if a.lo == a.hi == b.lo == b.hi:
+            return (op == '==')
+        if a.hi < b.lo or b.hi < a.lo:
+            return (op == '!=')
+    return None
+
+
+INT_WIDTH = {'unsigned long': 64, 'uint64_t': 64, 'std::uint64_t': 64, 'unsigned long long': 64, 'unsigned int': 32, 'uint32_t': 32, 'std::uint32_t': 32,
+             'unsigned short': 16, 'uint16_t': 16, 'unsigned char': 8, 'uint8_t': 8, 'int': 31, 'long': 63, 'long long': 63, 'short': 15}
+
+SAMPLE_RATIOS = [-1.0, -1e-300, 0.0, 1e-300, 1e-9, 0.25, 0.5, 0.75, 1.0 - 2 ** -53, 1.0, 1.0 + 2 ** -52, 2.0]
+
+
+def rule_r2c(ck, prog, ct, rule='C12.R2b'):
+    """no value bits of the threshold are dropped: every integral conversion inside the threshold mapping is wide enough for the
+    interval of its operand (a truncated low part loses exactly the carry the + was meant to keep)"""
+    g = Graph(prog, ct, inline=None, sync_lambdas=False)
+    rd = reaching_defs(g)
+    env = {ct.params[0]['id']: Itv(0.0, 1.0)}
+    bad = None
+    cnt = 0
+    for n in ct.nodes:
+        if n['k'] != 'cast':
+            continue
+        t = (n.get('to') or n.get('t') or '').replace('const ', '')
+        w = INT_WIDTH.get(t)
+        src_t = (ct.nodes[n['e']].get('t') or '')
+        if w is None or src_t.replace('const ', '') == t:
+            continue
+        if 'double' not in src_t and 'float' not in src_t and INT_WIDTH.get(src_t.replace('const ', ''), 0) <= w:
+            continue
+        x = _itv(g, rd, ct, n['e'], env)
+        cnt += 1
+        if x is None:
+            continue
+        if x.hi >= 2.0 ** w and bad is None:
+            bad = (n, t, w, x)
+    ck.verdict(bad is None, rule, ct, 'no-narrowing-of-threshold-parts', bad[0] if bad else None,
+               '%d integral conversions, each wide enough for the interval of its operand' % cnt if bad is None else
+               'the conversion to %s keeps %d bits but its operand ranges over %r: the bits above are dropped, so a larger ratio can map to a smaller threshold (monotonicity broken)' % (bad[1], bad[2], bad[3]))
+
+
+def rule_r1b(ck, prog, rule='C12.R1', cls='sdk::trace::TraceIdRatioBasedSampler'):
+    """the mapping function is applied to the configured ratio itself: the argument of CalculateThreshold in the constructor's
+    initialiser, evaluated for a table of sample ratios (below 0, around 0, inside, around 1, above 1), is <= 0 for ratios <= 0,
+    >= 1 for ratios >= 1 and the ratio itself in between - so that the extremes and the monotonicity of the mapping carry over"""
+    rec = prog.record(cls)
+    done = False
+    for m in sorted([x for x in prog.funcs.values() if x.cls == rec['qn'] and x.kind == 'ctor' and x.blocks], key=lambda x: x.key):
+        if not m.params or 'double' not in m.params[0]['t']:
+            continue
+        g = Graph(prog, m, inline=None, sync_lambdas=False)
+        rd = reaching_defs(g)
+        calls = [n for n in m.nodes if n['k'] == 'call' and strip_targs(n.get('c', '')).endswith('CalculateThreshold') and n.get('args')]
+        if len(calls) != 1:
+            continue
+        done = True
+        arg = calls[0]['args'][0]
+        bad = None
+        for r in SAMPLE_RATIOS:
+            v = _itv(g, rd, m, arg, {m.params[0]['id']: Itv(r, r)})
+            if v is None or v.lo != v.hi:
+                ck.inconclusive(rule, m, 'mapping-applied-to-the-configured-ratio', calls[0], 'the argument of the threshold mapping does not fold for ratio %r' % r)
+                bad = 'inconclusive'
+                break
+            x = v.lo
+            okr = (x <= 0.0) if r <= 0.0 else ((x >= 1.0) if r >= 1.0 else (x == r))
+            if not okr:
+                bad = 'for a configured ratio of %r the threshold is computed from %r: %s' % (
+                    r, x, 'a ratio >= 1 no longer samples everything' if r >= 1.0 else ('a ratio <= 0 samples something' if r <= 0.0 else
+                    'the sampling probability is not the configured ratio, and a larger ratio can sample fewer traces'))
+                break
+        if bad == 'inconclusive':
+            continue
+        ck.verdict(bad is None, rule, m, 'mapping-applied-to-the-configured-ratio', calls[0],
+                   'CalculateThreshold receives the configured ratio (%d sample ratios)' % len(SAMPLE_RATIOS) if bad is None else bad)
+    if not done:
+        raise AnalysisBroken('C12.R1: constructor initialising the threshold through the mapping function not found')
 
 
 def rule_r2b(ck, prog, ct, rule='C12.R2b'):
@@ -474,9 +589,9 @@ def rule_r3(ck, prog, rule='C12.R3', cls='sdk::trace::ParentBasedSampler'):
 
 
 def run(ck, prog):
-    ck.doc('C12.R1', 'ratio decision is a pure function of (trace id, threshold); threshold fixed from the ratio at construction', 5)
+    ck.doc('C12.R1', 'ratio decision is a pure function of (trace id, threshold); threshold fixed from the ratio at construction; the mapping is applied to the configured ratio itself (sample table)', 6)
     ck.doc('C12.R2', 'guards: extreme ratios, zero threshold, id <= threshold, same mapping on both sides', 6)
-    ck.doc('C12.R2b', 'interval analysis: high/low combination of the threshold must carry', 1)
+    ck.doc('C12.R2b', 'interval analysis: high/low combination of the threshold must carry; no integral conversion narrower than its operand', 2)
     ck.doc('C12.R3', 'parent-based decision table; constant samplers', 7)
     cg = CallGraph(prog)
     with ck.canary('C12.R1'):
@@ -486,8 +601,10 @@ def run(ck, prog):
     with ck.canary('C12.R3'):
         rule_r3(ck, prog, cls='canary::c12::BadParentSampler')
     f = rule_r1(ck, prog, cg)
+    rule_r1b(ck, prog)
     ct = rule_r2(ck, prog, cg, f)
     rule_r2b(ck, prog, ct)
+    rule_r2c(ck, prog, ct)
     rule_r3(ck, prog)
     # the parent-based sampler reads the decision back from the flags byte the tracer wrote: the encoding rule of C05
     # is a prerequisite of "a child gets exactly the parent's sampled decision"
